@@ -8,7 +8,8 @@ Assumed lemmas:
                        its finite part at G -> 0 (the divergent -4 pi Z / G^2 is cancelled by the neutralising background) is pi Z / a^2
     'gaussian-laguerre' int_0^inf r^(2+2n) j_0(G r) exp(-r^2/(2 s^2)) dr = sqrt(pi/2) s^(3+2n) 2^n n! L_n^(1/2)(G^2 s^2 / 2) exp(-G^2 s^2 / 2)
 The real functions are traced with symbolic parameters; the structure factor and the transform to real space are taken out
-(Sf = 1 for the single atom, J = identity), so that the traced value is the per-species form factor the code multiplies with Sf.
+(J = identity, real part after the transform = identity); three atoms of two species (interleaved) carry SYMBOLIC structure factors: the traced value
+has to be the sum over the ATOMS of (form factor of the atom's species) x (structure factor of the atom): charges at the atom positions.
 """
 
 from __future__ import annotations
@@ -42,23 +43,34 @@ def laguerre_half(n, x):
     return out
 
 
+SPECIES = ["X", "Y", "X"]  # three atoms of two species, interleaved: the potential is the SUM over the atoms of form factor x structure factor
+
+
 def trace(fn):
     C = new_ctx()
     ld = make_loader(native_extra=("eminus",))
     g2 = C.var("G2", positive=True)
     at = Stub()
-    at.atom = ["X"]
-    at.Natoms = 1
+    at.atom = list(SPECIES)
+    at.Natoms = len(SPECIES)
     at.G2 = np.array([A.ZERO, g2], dtype=object)
-    at.Sf = np.array([[A.ONE, A.ONE]], dtype=object)
+    # structure factors: symbolic complex numbers per atom and G (Sf[ia, 0] = 1 at G = 0)
+    Sf = np.empty((len(SPECIES), 2), dtype=object)
+    for ia in range(len(SPECIES)):
+        Sf[ia, 0] = A.ONE
+        Sf[ia, 1] = C.var(f"Sre{ia}") + A.I() * C.var(f"Sim{ia}")
+    at.Sf = Sf
     at.J = lambda x, *a, **k: x
-    Z = C.var("Zion", positive=True)
-    at.Z = np.array([Z], dtype=object)
+    # the code takes the real part AFTER the transform to real space; with the transform taken out (J = identity) the coefficients stay in
+    # reciprocal space, where "real part in real space" is the identity for a Hermitian-symmetric coefficient set (fft contract)
+    ld.backend.real = lambda x: x
+    par = {}
+    for sp in sorted(set(SPECIES)):
+        par[sp] = dict(Z=C.var(f"Zion{sp}", positive=True), s=C.var(f"rloc{sp}", positive=True), cs=[C.var(f"C{k + 1}{sp}") for k in range(4)])
+    at.Z = np.array([par[sp]["Z"] for sp in SPECIES], dtype=object)
     scf = Stub()
     scf.atoms = at
-    s = C.var("rloc", positive=True)
-    cs = [C.var(f"C{k + 1}") for k in range(4)]
-    scf.gth = {"X": {"rloc": s, "Zion": Z, "cloc": cs}}
+    scf.gth = {sp: {"rloc": par[sp]["s"], "Zion": par[sp]["Z"], "cloc": par[sp]["cs"]} for sp in par}
     if fn == "init_gth_loc":
         f = ld.get("eminus.gth", "init_gth_loc")
         out = f(scf)
@@ -68,7 +80,7 @@ def trace(fn):
     out = np.asarray(out, dtype=object)
     if out.shape != (2,):
         raise A.OutsideSubset(f"{fn} returns shape {out.shape}")
-    return C, lift(out[0]), lift(out[1]), g2, Z, s, cs
+    return C, lift(out[0]), lift(out[1]), g2, par, Sf
 
 
 class LocalFT:
@@ -77,25 +89,36 @@ class LocalFT:
 
     def __call__(self, ob, tier, seed):
         try:
-            C, v0, v1, g2, Z, s, cs = trace(self.fn)
+            C, v0, v1, g2, par, Sf = trace(self.fn)
             pi = C.pi()
-            if self.fn == "init_gth_loc":
-                x = g2 * s * s * Fraction(1, 2)
-                gauss = A.exp(-x)
-                pref = 4 * pi * A.qpow(pi * Fraction(1, 2), Fraction(1, 2)) * s**3
-                if self.clause == "finite_G":
-                    spec = -4 * pi * Z * gauss / g2 + pref * gauss * sum((cs[n] * (2**n) * math.factorial(n) * laguerre_half(n, x) for n in range(4)), A.ZERO)
-                    res = v1 - spec
-                else:
+
+            def form_factor(sp):
+                """The per-species form factor at G != 0 / its G = 0 value."""
+                Z, s, cs = par[sp]["Z"], par[sp]["s"], par[sp]["cs"]
+                if self.fn == "init_gth_loc":
+                    x = g2 * s * s * Fraction(1, 2)
+                    gauss = A.exp(-x)
+                    pref = 4 * pi * A.qpow(pi * Fraction(1, 2), Fraction(1, 2)) * s**3
+                    if self.clause == "finite_G":
+                        return -4 * pi * Z * gauss / g2 + pref * gauss * sum((cs[n] * (2**n) * math.factorial(n) * laguerre_half(n, x) for n in range(4)), A.ZERO)
                     # G = 0: finite part of the screened Coulomb term (pi Z / a^2 with a^2 = 1/(2 s^2)) + the Gaussian terms at x = 0
-                    spec = 2 * pi * Z * s * s + pref * sum((cs[n] * (2**n) * math.factorial(n) * laguerre_half(n, A.ZERO) for n in range(4)), A.ZERO)
-                    res = v0 - spec
-            elif self.fn == "coulomb":
-                res = (v1 + 4 * pi * Z / g2) if self.clause == "finite_G" else v0
-            else:
+                    return 2 * pi * Z * s * s + pref * sum((cs[n] * (2**n) * math.factorial(n) * laguerre_half(n, A.ZERO) for n in range(4)), A.ZERO)
+                if self.clause != "finite_G":
+                    return A.ZERO
+                if self.fn == "coulomb":
+                    return -4 * pi * Z / g2
                 al = lift(C.var("alpha", positive=True))
-                res = (v1 + 4 * pi * Z * A.exp(-g2 / (4 * al * al)) / g2) if self.clause == "finite_G" else v0
-            env = {"G2": 1.7, "Zion": 4.0, "rloc": 0.44, "C1": -7.1, "C2": 1.3, "C3": 0.4, "C4": -0.2, "alpha": 1.9}
+                return -4 * pi * Z * A.exp(-g2 / (4 * al * al)) / g2
+
+            # charges at the atom positions: sum over the ATOMS of (form factor of the atom's species) x (structure factor of the atom)
+            gi = 1 if self.clause == "finite_G" else 0
+            spec = sum((form_factor(sp) * Sf[ia, gi] for ia, sp in enumerate(SPECIES)), A.ZERO)
+            res = (v1 if gi else v0) - spec
+            env = {"G2": 1.7, "alpha": 1.9}
+            for k_, sp in enumerate(sorted(par)):
+                env.update({f"Zion{sp}": 4.0 - k_, f"rloc{sp}": 0.44 + 0.1 * k_, f"C1{sp}": -7.1 + k_, f"C2{sp}": 1.3 - 0.4 * k_, f"C3{sp}": 0.4 + 0.2 * k_, f"C4{sp}": -0.2 - 0.1 * k_})
+            for ia in range(len(SPECIES)):
+                env.update({f"Sre{ia}": 0.3 + 0.2 * ia, f"Sim{ia}": -0.5 + 0.35 * ia})
             v = evalf(res, env)
             if abs(v) > 1e-25:
                 return self.refute(ob, f"deviates from the Fourier transform of the published real-space form by {float(abs(v)):.3e} at {env}")
@@ -160,7 +183,31 @@ class LocalFT:
                     rel = 0.0 if abs(v[k]) < 1e-14 else rel
             rows.append(dict(G=float(G), code=float(v[k]), fourier_transform=float(ft), rel_err=float(rel)))
             worst = max(worst, float(rel))
-        return bool(worst > 1e-7), dict(check="form factor vs mpmath radial Fourier transform of the real-space potential", rows=rows)
+        multi = self.replay_atoms()
+        return bool(worst > 1e-7 or multi["bad"]), dict(check="form factor vs mpmath radial Fourier transform of the real-space potential", rows=rows, several_atoms=multi)
+
+    def replay_atoms(self):
+        """Real Atoms objects with several atoms / species: the potential against sum over the ATOMS of (form factor of the single atom, computed by
+        the same function for that atom alone in the same cell) - charges at the atom positions superpose."""
+        import eminus
+        from eminus import SCF, Atoms
+
+        eminus.config.backend = "numpy"
+        eminus.config.verbose = "critical"
+        pot = {"init_gth_loc": "gth", "coulomb": "coulomb", "coulomb_lr": "lr"}[self.fn]
+        a = [[7.0, 0.4, 0.2], [0.3, 7.5, 0.5], [0.1, 0.6, 8.0]]
+        out = []
+        for atom, pos in ((["Li", "H"], [[0.1, 0.2, 0.3], [0.4, 0.2, 3.1]]), (["H", "H"], [[0.3, 0.1, 0.2], [1.5, 0.4, 0.3]]),
+                          (["H", "O", "H"], [[1.1, 1.3, 0.9], [3.2, 1.0, 1.4], [2.0, 3.1, 2.2]])):
+            def vloc(at_, pos_):
+                at = Atoms(at_, pos_, ecut=4, a=a)
+                return np.asarray(SCF(at, pot=pot, verbose="critical").Vloc)
+
+            full = vloc(atom, pos)
+            parts = sum(vloc([atom[i]], [pos[i]]) for i in range(len(atom)))
+            err = float(np.abs(full - parts).max() / max(1e-12, np.abs(parts).max()))
+            out.append(dict(atoms=atom, rel_err=err))
+        return dict(check="Vloc of the system vs the sum of the single-atom potentials", cases=out, bad=bool(max(c["rel_err"] for c in out) > 1e-10))
 
 
 for _fn, _mod, _what in (("init_gth_loc", "eminus.gth", "local GTH potential -Zion erf(r/(sqrt2 rloc))/r + exp(-r^2/2rloc^2) sum_k C_k (r/rloc)^(2k-2)"),
